@@ -149,6 +149,23 @@ func (en *Engine) typeFacts(t types.Type, e string, now string) string {
 		return and(app("<=", "0", e), app("<", e, now))
 	case *types.Interface:
 		return en.closedWorld(t, tt, e)
+	case *types.Struct:
+		// a struct value: the facts of its reference-like fields (one level; repository types)
+		if !en.u.isRepoType(t) {
+			return "true"
+		}
+		si := en.u.structInfo(t)
+		if si.Opaque {
+			return "true"
+		}
+		var fs []string
+		for k := 0; k < tt.NumFields(); k++ {
+			switch tt.Field(k).Type().Underlying().(type) {
+			case *types.Slice, *types.Pointer, *types.Map:
+				fs = append(fs, en.typeFacts(tt.Field(k).Type(), app(en.u.selName(si, tt.Field(k).Name()), e), now))
+			}
+		}
+		return and(fs...)
 	}
 	return "true"
 }
